@@ -779,6 +779,9 @@ class Exec:
             cb = z3.is_bv_value(simp(b))
             if o.div_uf is not None and (not cb or o.div_uf_all):
                 fq, fr = o.div_uf
+                if w != 64:
+                    sw = z3.BitVecSort(w)
+                    fq, fr = z3.Function("%s%d" % (fq.name(), w), sw, sw, sw), z3.Function("%s%d" % (fr.name(), w), sw, sw, sw)
                 return fq(a, b) if op == "sdiv" else fr(a, b)
             if o.div_spec and not (z3.is_bv_value(simp(a)) and cb):
                 q, r = self.sdivrem_spec(a, b, w)
@@ -960,6 +963,27 @@ class Exec:
                 env[ins.dest] = r
             return
         base = name.split(".")
+        if name in self.mod.funcs and not name.startswith("llvm."):
+            # a callee the optimiser left out of line: encode it in place (no recursion in this code base)
+            depth = getattr(o, "_depth", 0)
+            if depth > 6:
+                raise Unsupported("call depth")
+            o._depth = depth + 1
+            try:
+                sub = encode(self.mod, name, args, o)
+            finally:
+                o._depth = depth
+            pc = self.pc
+            for k, t, cnd in sub.ub:
+                self.res.ub.append((k, t, cnd if is_true(pc) else z3.And(pc, cnd)))
+            self.res.assumes.extend(sub.assumes)
+            self.res.fresh.extend(sub.fresh)
+            self.res.calls.extend(sub.calls)
+            if not is_false(sub.unwind):
+                self.res.unwind = z3.Or(self.res.unwind, z3.And(pc, sub.unwind))
+            if ins.dest:
+                env[ins.dest] = sub.ret
+            return
         if name.startswith("llvm.expect"):
             env[ins.dest] = args[0]
         elif name.startswith("llvm.lifetime") or name.startswith("llvm.dbg") or name.startswith("llvm.assume") \
